@@ -212,6 +212,9 @@ def run(job, streams=None):
     sc = scen.draw_flavour(ch)
     if ch.draw(3, "cfg.keepsock") == 1:
         sc["close_socket"] = False
+    if sc.get("sni") and ch.draw(3, "cfg.snis") == 1:
+        # the server is told which name it serves (matching or not)
+        sc["sni_s"] = [sc["sni"], "other.example"][ch.draw(2, "cfg.snisv")]
     if ch.draw(12, "cfg.incompat") == 1:
         # a failing handshake must fail the same way on every transport
         sc["cset"]["cipherNames"] = ["aes128"]
